@@ -17,8 +17,8 @@ def _cfg(tmpl, name, **subst):
     return p
 
 
-def ti_explore(maxlen, depth, simulate=None, sd=0, inval="never", emit=True, coherent=False):
-    cfg = _cfg("TableIndex.cfg.tmpl", f"TableIndex_{maxlen}_{depth}_{inval}.cfg", MAXLEN=maxlen, DEPTH=depth, INVAL=inval,
+def ti_explore(maxlen, depth, simulate=None, sd=0, inval="never", emit=True, coherent=False, qsel="all"):
+    cfg = _cfg("TableIndex.cfg.tmpl", f"TableIndex_{maxlen}_{depth}_{inval}_{qsel}.cfg", MAXLEN=maxlen, DEPTH=depth, INVAL=inval, QSEL=qsel,
                EMIT="ACTION_CONSTRAINT Emit" if emit else "", COHERENT="INVARIANT CacheCoherent" if coherent else "")
     out = os.path.join(GEN, f"ti_{maxlen}_{depth}_{simulate}_{os.getpid()}.out")
     try:
@@ -44,19 +44,20 @@ def c07():
     _, r0 = ti_explore(3, 3, emit=False, inval="ref", coherent=True)
     if r0.violation:
         raise Machinery("TableIndex.tla reference model violates its own invariant:\n" + r0.violation[:2000])
-    plans = [(2, 3, None), (3, 6, 40)] if q else [(3, 3, None), (2, 4, None), (4, 8, 400)]
+    plans = [(2, 3, None, "all"), (2, 4, None, "few"), (3, 6, 40, "all")] if q else \
+        [(3, 3, None, "all"), (2, 4, None, "all"), (3, 4, None, "few"), (2, 5, None, "few"), (4, 8, 400, "all")]
     tot_s = tot_t = 0
     stats = collections.Counter()
     cfgs = []
-    for maxlen, depth, sim in plans:
-        g, r = ti_explore(maxlen, depth, simulate=sim, sd=seed())
+    for maxlen, depth, sim, qsel in plans:
+        g, r = ti_explore(maxlen, depth, simulate=sim, sd=seed(), qsel=qsel)
         if r.violation:
             raise Machinery("TableIndex.tla violates its own invariant:\n" + r.violation[:2000])
         tot_s += len(g.states)
         tot_t += len(g.edges)
         fails, st, samples = par.run_workers("harness.ti_replay", {"graph": g, "scratch": scratch}, 12)
         stats.update(st)
-        cfgs.append({"maxlen": maxlen, "depth": depth, "simulate": sim, "tlc_generated": r.states, "tlc_distinct": r.distinct,
+        cfgs.append({"maxlen": maxlen, "depth": depth, "simulate": sim, "row_designations": qsel, "tlc_generated": r.states, "tlc_distinct": r.distinct,
                      "emitted_transitions": len(g.edges)})
         for s in samples[:2]:
             v.sample(s)
@@ -67,7 +68,7 @@ def c07():
           distinct_nontrivial=stats["nontrivial"], configurations=cfgs, exhaustive=all(p[2] is None for p in plans),
           model_invariants={"reference_rule_states": r0.distinct, "invariants": ["CacheCoherent", "LabelsResolve", "TypeOK"]})
     v.assume("names do not contain the separators :: << >>", "offsets landing outside the table are not demanded",
-             "deleting the index column itself, and the private _append_row/_update, are not in this model")
+             "while the index column is deleted nothing is demanded of name lookups (they resume when an index column is added again)", "the private _append_row/_update are not in this model")
     return v.finish()
 
 
